@@ -22,3 +22,5 @@ macro_rules! playback_tests {
 mod util;
 
 mod geno;
+mod index;
+mod view;
